@@ -348,6 +348,8 @@ def build_request(ex, meta):
         r["slice_stmt"] = o["slice_stmt"].replace("~", " ")
         if "slice_nth" in o:
             r["slice_nth"] = int(o["slice_nth"])
+        if "slice_sig" in o:
+            r["slice_sig"] = o["slice_sig"].replace("~", " ")
         if "slice_tail" in o:
             r["slice_tail"] = o["slice_tail"].replace("~", " ")
     if "slice_from" in o or "slice_to" in o:
